@@ -74,6 +74,15 @@ CLAIMED = {
                 note=TB + "; write_context_t.version is constant during a write (checked: stored only by cif_write); one named "
                      "exemption: text of unquoted numbers",
                 tech="typestate dataflow (validated-set) + forwarder summaries + guard dominance + table agreement"),
+    "C15": dict(level="other", ref="5 C15",
+                text="Context-sensitive abstract interpretation of the parser productions over the skip depth (interval domain; contexts "
+                     "= nullness of storage parameters x entry depth, discovered from parse_cif in storing and syntax-only mode): "
+                     "every handler / keyword / data-name callback and every storing call is reached only with depth <= 0; the "
+                     "reachable callback sites do not depend on the presence of a target CIF; each production honours its depth "
+                     "contract; depth stores have the directive-driven form. Document order and callback arguments are not decided.",
+                note=TB + "; depth contract of parse_loop_packets assumed (loop-carried pairing keyed on column_index), handlers "
+                     "cannot modify the scanner",
+                tech="context-sensitive interval abstract interpretation over clang CFGs (assume-guarantee contracts per production)"),
     "C18": dict(level="other", ref="5 C18",
                 text="Exhaustive agreement of finite tables: the special-character sets of cif_analyze_string, cif_value_set_quoted and "
                      "cif_is_reserved_string equal the scanner's token-ending / token-starting classes; reserved words agree with "
